@@ -1009,3 +1009,24 @@ def c3_boundary():
             seen.add(s)
             res.append((k, s))
     return res
+
+
+C3_BINOPS = ['+', '-', '*', '/', '%', '<<', '>>', '|', '&', '^', '==', '!=', '<', '>', '<=', '>=', 'and', 'or']
+C3_ZEROS = ['0', '0.0', '-0.0', '(1 - 1)', '(2.5 - 2.5)', 'Z', 'ZF', 'cast<int>(0.4)']
+C3_LHS = ['7', '7.25', '-1.5', 'K', 'KF']
+C3_OP_CTX = ['const int C = @;', 'const double C = @;', 'var int x = @;', 'var double x = @;', 'var int[@] a;',
+             'function void t(int v) { switch (v) { case @: { } default: { } } }',
+             'function void t() { var double d = @; }', 'function void t() { var int i = @; }']
+
+
+def c3_const_ops():
+    """[(kind, text)]: every C3 binary operator x {int, float, mixed} operands x a right operand that is a zero
+    (literal 0, 0.0, -0.0, constant expressions evaluating to zero) in every constant context"""
+    pre = 'module m;\nconst int Z = 0;\nconst double ZF = 0.0;\nconst int K = 7;\nconst double KF = 7.25;\n'
+    out = []
+    for op in C3_BINOPS:
+        for a in C3_LHS:
+            for z in C3_ZEROS:
+                for c in C3_OP_CTX:
+                    out.append(('c3-boundary', pre + c.replace('@', '%s %s %s' % (a, op, z)) + '\n'))
+    return out
